@@ -60,7 +60,9 @@ PROPS = {
                          "spec functions (z3/cvc5, algebraic lemmas) + exhaustive bounded comparison incl. user-defined costs",
             "level_text": "ChangeScore == C(s,e)-C(s,k)-C(k,e) and Saving == C_baseline - C_optimised proved for every cost meeting the interface contract "
                           "(uninterpreted cost); squared CUSUM == L2 change score computed from rows (L_cusum) and L2Saving == SQDEV(0)-RSS proved on the real "
-                          "kernels and classes; non-negativity of CUSUM/L2 saving proved. LocalAnomalyScore, optimal<=fixed and split inequality for the Gaussian "
+                          "kernels and classes; non-negativity of CUSUM/L2 saving proved. LocalAnomalyScore (fit, _check_cuts, _evaluate, evaluate): value == C(outer) - (C(inner) + C of the pooled "
+                          "surrounding rows refitted with a clone of the same configuration), for every data-keyed cost (token = FITTOK(kind, data); the pooled array "
+                          "is proved elementwise to be the rows [c0,c1) then [c2,c3) of X). optimal<=fixed and split inequality for the Gaussian "
                           "costs: bounded only.",
             "level_note": "interface contract of user costs assumed; sktime clone/set_params assumed; floats as reals"},
     "C07": {"category": "proof", "driver": "C07", "claimed": True,
@@ -87,7 +89,7 @@ PROPS = {
                           "score == max of the column-summed local anomaly score over them (0 when there is none: argmax is never taken of an empty "
                           "set), the scores-table columns hold the attaining inner interval; greedy selection: supported, exhaustive, pairwise "
                           "disjoint, strictly inside the data, length >= m. 'Exactly the greedy sequence' and threshold monotonicity: bounded.",
-            "level_note": "local-anomaly-score interface assumed (LocalAnomalyScore's refit loop itself is bounded under C06); termination of the greedy loop "
+            "level_note": "local-anomaly-score interface assumed for user scores (the built-in LocalAnomalyScore adapter is proved under C06); termination of the greedy loop "
                           "not proved"},
     "C10": {"category": "proof", "driver": "C10", "claimed": True,
             "technique": "contract-based deductive verification: every kernel under contract must establish the scorer's fitted state itself (fit before "
